@@ -51,7 +51,8 @@ ASSUMPTIONS = [
     "when it is numerically unambiguous: either the point is farther than 1e-9 (relative, on the squares) from the "
     "boundary, or the current subset is 'binary-exact' (every sum, the mean, the deviation and nsig*deviation are exactly "
     "representable, so ANY float evaluation order gives the exact result and a point exactly on the boundary must be "
-    "discarded).  Otherwise both outcomes are accepted (the reference branches).  A step that would discard every "
+    "discarded).  Otherwise both outcomes are accepted (the reference branches; a step with more than 4 ambiguous "
+    "points is treated as unconstrained and gets its own outcome class).  A step that would discard every "
     "remaining point is unconstrained, as in DESIGN.md (the reported subset must then still be a subset of the current "
     "one, and the returned statistics must still be those of the reported subset)",
     "the subset sigma_clip 'reports' is the get_indices result, or the 'indices' entry it stores in the caller's extra= dict "
@@ -60,7 +61,8 @@ ASSUMPTIONS = [
     "may refuse with ValueError (sigma_clip documents 1-d only)",
     "boxcar_average is anchored but not mentioned in the statement; the oracle is its docstring written out: "
     "out[i] = (1/N) * sum(x[i:i+N]) with zeros beyond the end, len(out) == len(x); 1e-12*max|x|",
-    "weights are integers (exact cumulative sums), so the weighted-median rank comparison is exact in floating point",
+    "the weights of the wmom/wmedian lattices are integers (exact cumulative sums), so the weighted-median rank "
+    "comparison 'cumulative weight >= half the total' is exact in floating point",
     "finite alphabets and length bounds as listed under bounds of each part; wmom-nd/get-stats 2-d use N,d <= 3 "
     "(the statement's cov matrices go to 6x6, covered; its N and k are unspecified)",
 ]
@@ -239,7 +241,7 @@ def clip_levels(data, weights, nsig, maxiter=10):
             sure, amb, onb = clip_step(idx, X, Wt, nsig)
             onb = onb or onb0
             if len(amb) > MAXAMB:
-                nxt.add(("free", idx, nclip, onb, True))
+                nxt.add(("free-amb", idx, nclip, onb, True))
                 continue
             for r in range(len(amb) + 1):
                 for extra in itertools.combinations(amb, r):
@@ -286,14 +288,16 @@ def match_level(states, ind):
         kind, idx = st[0], st[1]
         if kind in ("run", "stop") and idx == ind:
             return st
-        if kind == "free" and set(ind) <= set(idx) and len(ind) > 0:
+        if kind.startswith("free") and set(ind) <= set(idx) and len(ind) > 0:
             best = st
     return best
 
 
 def clip_outcome(st, niter):
     kind, idx, nclip, onb, amb = st
-    if kind == "free":
+    if kind == "free-amb":
+        oc = "more-than-%d-ambiguous-points:unconstrained" % MAXAMB
+    elif kind == "free":
         oc = "everything-would-be-clipped:unconstrained"
     elif kind == "stop":
         oc = "converged-after-%s" % ("no-clipping" if nclip == 0 else "clipping")
@@ -431,22 +435,24 @@ def main(ctx):
     WR = (1.0, 0.0, 1e6)
     IMS = (None, 1.5, ("arr", (1.5,)))
     units1 = []
+
+    def add1(cont, fam, L, xal):
+        # the unit fixes the first symbol (the first two for L >= 4: load balance)
+        for pre in itertools.product(xal, repeat=1 if L < 4 else 2):
+            units1.append((cont, fam, L, pre))
+
     for L in range(1, L1 + 1):
-        for x0 in VG:
-            units1.append(("f8", "full", L, x0))
+        add1("f8", "full", L, VG)
     for L in range(1, LC + 1):
-        for x0 in VG:
-            units1.append(("list", "full", L, x0))
-        for x0 in VI:
-            units1.append(("i8", "int", L, x0))
-    for x0 in VR:
-        units1.append(("f8", "reduced", LR, x0))
+        add1("list", "full", L, VG)
+        add1("i8", "int", L, VI)
+    add1("f8", "reduced", LR, VR)
 
     def expand1(u):
-        cont, fam, L, x0 = u
+        cont, fam, L, pre = u
         xal, wal = {"full": (VG, W), "int": (VI, WI), "reduced": (VR, WR)}[fam]
-        for rest in itertools.product(xal, repeat=L - 1):
-            x = (x0,) + rest
+        for rest in itertools.product(xal, repeat=L - len(pre)):
+            x = pre + rest
             for w in itertools.product(wal, repeat=L):
                 if sum(w) == 0:
                     continue
@@ -609,10 +615,10 @@ def main(ctx):
         if ind is None:
             # no subset reported at all: the statistics must be those of an acceptable subset
             for st in sorted(states):
-                if st[0] != "free" and subset_stats_msg(data, w, st[1], m, s, e) is None:
+                if not st[0].startswith("free") and subset_stats_msg(data, w, st[1], m, s, e) is None:
                     return rec.ok(case, outcome=clip_outcome(st, niter) + "|indices-not-reported",
                                   nontrivial=True, calls=1)
-            if any(st[0] == "free" for st in states):
+            if any(st[0].startswith("free") for st in states):
                 return rec.ok(case, outcome="everything-would-be-clipped:unconstrained|indices-not-reported",
                               nontrivial=True, calls=1)
             return rec.fail(case, "statistics (%r, %r, %r) are those of no acceptable subset %r"
@@ -837,11 +843,11 @@ def main(ctx):
                 states = levels[min(kw.get("niter", 4), len(levels) - 1)]
                 hit = None
                 for st in sorted(states):
-                    if st[0] != "free" and subset_stats_msg(xs, wj, st[1], m, s, e) is None:
+                    if not st[0].startswith("free") and subset_stats_msg(xs, wj, st[1], m, s, e) is None:
                         hit = st
                         break
                 if hit is None:
-                    if any(st[0] == "free" for st in states):
+                    if any(st[0].startswith("free") for st in states):
                         return rec.ok(case, outcome="clip:everything-would-be-clipped:unconstrained",
                                       nontrivial=True, calls=1)
                     return rec.fail(case, "mean/std/err = %r/%r/%r are not those of the clipped subset %r"
